@@ -26,3 +26,38 @@ CONTRACTS = [
         ],
     ),
 ]
+
+
+def structural(find_def):
+    """
+    Type-table lemma over the REAL tables (cdd.sqlalchemy.utils.emit_utils.typ2column_type, built by inverting
+    cdd.sqlalchemy.utils.parse_utils.column_type2typ and then updated -- twice: cdd.compound.openapi.utils.emit_utils updates it
+    again on import): for every scalar type of the SQL-representable slice, the column type the emitters write is one the
+    parsers read back as the same type -- in BOTH states of the table (a fresh interpreter that imported the SQLAlchemy emitter
+    only, and after the OpenAPI utilities were imported as well).  The tables are finite, so evaluating them is complete (not a
+    bound); what is trusted is that the emitters / parsers consult these tables (exercised by the stand-in).
+    """
+    import json
+    import os
+    import subprocess
+    import sys
+
+    code = ("import json, cdd.sqlalchemy.utils.emit_utils as eu, cdd.sqlalchemy.utils.parse_utils as pu\n"
+            "a = dict(eu.typ2column_type)\n"
+            "import cdd.compound.openapi.utils.emit_utils\n"
+            "print(json.dumps({'sqlalchemy-only': a, 'with-openapi-utils': dict(eu.typ2column_type), 'back': dict(pu.column_type2typ)}, default=str))\n")
+    out = []
+    try:
+        from checks import common
+
+        r = subprocess.run([sys.executable, "-c", code], capture_output=True, text=True, timeout=120, env=dict(os.environ, PYTHONPATH=common.REPO))
+        tables = json.loads(r.stdout.strip().splitlines()[-1])
+    except Exception as ex:
+        return [("type-tables/evaluated", None, "the tables could not be evaluated in a fresh interpreter: %s" % ex)]
+    for state in ("sqlalchemy-only", "with-openapi-utils"):
+        for t in ("int", "float", "str", "bool"):
+            col = tables[state].get(t)
+            back = tables["back"].get(col)
+            out.append(("type-tables/%s/%s-is-written-as-a-column-type-read-back-as-%s" % (state, t, t), back == t,
+                        "typ2column_type[%r] == %r and column_type2typ[%r] == %r" % (t, col, col, back)))
+    return out
